@@ -19,7 +19,9 @@
    64 KiB split) and exports the samples for replay against the real EncryptFragment.          *)
 EXTENDS Integers, Sequences, FiniteSets, TLC, Json
 
-CONSTANTS Lens, MaxNals, Codec, Scheme, DoExport
+CONSTANTS Lens, MaxNals, Codec, Scheme, DoExport,
+          Many      \* {} or sample sizes in NAL units: samples of n equal protected video NAL units (n >= 40: the aux info of one sample
+                    \* no longer fits the 8-bit sample_info_size of saiz with a 16-byte IV: 16 + 2 + 6n > 255)
 
 RECURSIVE SumSeq(_)
 SumSeq(s) == IF s = <<>> THEN 0 ELSE Head(s) + SumSeq(Tail(s))
@@ -76,8 +78,8 @@ SencEntryBytes(ivSize, subs) == ivSize + (IF subs = <<>> THEN 0 ELSE 2 + 6 * Len
 Kinds == IF Codec = "audio" THEN {"a"} ELSE {"v", "n"}
 NalSet == [kind : Kinds, len : {l \in Lens : l >= HdrLen}]      \* a header-only unit (end of sequence / stream) is a legitimate NAL unit
 VARIABLES nals
-Init == nals = <<>>
-Add(n) == Len(nals) < (IF Codec = "audio" THEN 1 ELSE MaxNals) /\ nals' = Append(nals, n)
+Init == IF Many = {} THEN nals = <<>> ELSE nals \in {[i \in 1 .. n |-> [kind |-> "v", len |-> 200]] : n \in Many}
+Add(n) == Many = {} /\ Len(nals) < (IF Codec = "audio" THEN 1 ELSE MaxNals) /\ nals' = Append(nals, n)
 Next == \E n \in NalSet : Add(n)
 Spec == Init /\ [][Next]_nals
 
